@@ -321,6 +321,63 @@ fn check_literals() -> CaseResult {
 }
 
 // ---------------------------------------------------------------------------------------------
+// "placed": the same constructors on slices that do not start at a word boundary (a value cut out of a read
+// buffer, a directory-entry name, a stack array): what is accepted and what is rejected must not depend on where
+// the bytes lie.
+// ---------------------------------------------------------------------------------------------
+
+#[derive(Debug, Clone, Serialize, Deserialize)]
+pub struct Placed {
+    pub s: BStr,
+    /// offset of the slice's first byte from a 64-byte boundary
+    pub off: u8,
+}
+
+pub fn check_placed(c: &Placed) -> CaseResult {
+    let mut rep = CaseReport::new();
+    let s = &c.s.0;
+    let off = (c.off % 64) as usize;
+    let mut store = vec![0xAAu8; s.len() + 192];
+    let base = (64 - store.as_ptr() as usize % 64) % 64;
+    store[base + off..base + off + s.len()].copy_from_slice(s);
+    let sl: &[u8] = &store[base + off..base + off + s.len()];
+    let inp = format!("{:?} at word offset {}", escape(s), (sl.as_ptr() as usize) % 8);
+    let representable = nul_pos_ok(s);
+    let borrow_ok = s.iter().position(|&c| c == 0) == Some(s.len().wrapping_sub(1)) && !s.is_empty();
+    match (no_panic("UnixString::try_from_bytes", || UnixString::try_from_bytes(sl))?, representable) {
+        (Ok(u), true) => term_string("UnixString::try_from_bytes", &inp, &u, true)?,
+        (Err(_), false) => rep.class("interior-nul-rejected"),
+        (Ok(u), false) => return Err(Failure::new("UnixString::try_from_bytes|accepted-interior-nul|slice not word-aligned", format!("try_from_bytes({inp}) accepted: {:?}", escape(u.as_slice())))),
+        (Err(e), true) => return Err(Failure::new("UnixString::try_from_bytes|rejected-valid|slice not word-aligned", format!("try_from_bytes({inp}) rejected: {e}"))),
+    }
+    match (no_panic("UnixStr::try_from_bytes", || UnixStr::try_from_bytes(sl).map(|u| u.as_slice().to_vec()))?, borrow_ok) {
+        (Ok(b), true) => ensure!(b[..] == s[..], "UnixStr::try_from_bytes|not-same-bytes", "try_from_bytes({inp}) does not designate the input"),
+        (Err(_), false) => rep.class("borrowed-rejected"),
+        (Ok(b), false) => return Err(Failure::new("UnixStr::try_from_bytes|accepted-invalid|slice not word-aligned", format!("UnixStr::try_from_bytes({inp}) accepted: {:?}", escape(&b)))),
+        (Err(e), true) => return Err(Failure::new("UnixStr::try_from_bytes|rejected-valid|slice not word-aligned", format!("UnixStr::try_from_bytes({inp}) rejected: {e}"))),
+    }
+    rep.nontrivial = s.contains(&0);
+    rep.class_if((sl.as_ptr() as usize) % 8 != 0, "slice-starts-inside-a-word");
+    rep.class_if(s.len() >= 16 && s[..8.min(s.len())].contains(&0), "nul-within-the-first-word-of-a-long-input");
+    Ok(rep)
+}
+
+fn placed_strategy() -> impl Strategy<Value = Placed> {
+    // text of 0..48 bytes; a NUL planted at a generated position (often near the front), often one at the end as well
+    (prop::collection::vec(prop_oneof![8 => prop::sample::select(ALPHA.to_vec()), 1 => 1u8..=255u8], 0..48), prop_oneof![2 => Just(None), 3 => (0usize..10).prop_map(Some), 2 => (0usize..48).prop_map(Some)], any::<bool>(), 0u8..64).prop_map(|(mut s, nul_at, term, off)| {
+        if let Some(k) = nul_at {
+            if k < s.len() {
+                s[k] = 0;
+            }
+        }
+        if term {
+            s.push(0);
+        }
+        Placed { s: BStr(s), off }
+    })
+}
+
+// ---------------------------------------------------------------------------------------------
 // "census": the safe constructors the types offer through the standard conversion traits. The set is found at
 // compile time (an inherent method that exists only when the trait bound holds shadows a trait method that says
 // "not offered"), so a constructor that is added later is met here without the harness naming it.
@@ -469,5 +526,6 @@ pub fn run(ctx: &Ctx) {
     ctx.run_prop("one-rand", ctx.cases(1500, 50_000), any_bytes.prop_map(|s| One { s: BStr(s) }), |c: &One| check_one(&c.s.0));
     let nonul = || prop::collection::vec(prop_oneof![3 => Just(b'/'), 8 => prop::sample::select(vec![b'a', b'b', b'.']), 2 => 1u8..=255u8], 0..600);
     ctx.run_prop("two-rand", ctx.cases(1500, 50_000), (nonul(), nonul()).prop_map(|(a, b)| Two { a: BStr(a), b: BStr(b) }), |c: &Two| check_two(&c.a.0, &c.b.0));
+    ctx.run_prop("placed", ctx.cases(3000, 100_000), placed_strategy(), check_placed);
     ctx.run_prop("dir", ctx.cases(40, 1500), prop::collection::vec(name_strategy(), 0..40).prop_map(|names| DirCase { names }), |c: &DirCase| check_dir(ctx, &c.names));
 }
